@@ -4,20 +4,35 @@ import checklib as L
 
 
 def canon(lines):
-    """segments end at 'ev|sync'; inside a segment the '> ack' lines form a set: move them,
-    sorted, to the end of the segment. '> round' lines are model-only (dropped)."""
-    out, acks = [], []
+    """Returns (lines without acknowledgements and model-only lines, acks) where acks is a list of
+    (ack line, segment number); segments end at 'ev|sync'. Acknowledgements are delivered by waiter
+    goroutines of the implementation, so WHEN the harness sees one is subject to scheduling latency:
+    they are compared per history as a set, with the constraint that the implementation never
+    delivers one in an EARLIER segment than the model (later is latency, earlier is a difference)."""
+    out, acks, seg = [], [], 0
     for l in lines:
         if l.startswith("> round ") or l.startswith("stat|") or l.startswith("mon|"):
             continue
         if l.startswith("> ack "):
-            acks.append(l)
+            acks.append((l, seg))
             continue
-        if l == "ev|sync" or l.startswith("ev|reset") or l == "ev|dump":
-            out.extend(sorted(acks)); acks = []
+        if l == "ev|sync":
+            seg += 1
         out.append(l)
-    out.extend(sorted(acks))
-    return out
+    return out, acks
+
+
+def split_raw(lines):
+    hs, cur = [], []
+    for l in lines:
+        if l.startswith("ev|reset"):
+            if cur:
+                hs.append(cur)
+            cur = []
+        cur.append(l)
+    if cur:
+        hs.append(cur)
+    return hs
 
 
 def split_histories(lines):
@@ -55,10 +70,13 @@ def compare(impl_text, model_exe):
     mlines, err = run_model(model_exe, ev_only)
     if mlines is None:
         return stats, None, mons, [], err
-    hi = split_histories(canon(lines))
-    hm = split_histories(canon([l for l in mlines if l]))
-    diffs = []
-    for k, (a, b) in enumerate(zip(hi, hm)):
+    ri = split_raw(lines)
+    rm = split_raw([l for l in mlines if l])
+    diffs, hi = [], []
+    for k, (a0, b0) in enumerate(zip(ri, rm)):
+        a, acks_a = canon(a0)
+        b, acks_b = canon(b0)
+        hi.append(a0)
         if a != b:
             for j in range(max(len(a), len(b))):
                 x = a[j] if j < len(a) else "<end>"
@@ -66,6 +84,16 @@ def compare(impl_text, model_exe):
                 if x != y:
                     diffs.append((k, j, x, y))
                     break
-    if len(hi) != len(hm):
-        diffs.append((-1, -1, "%d histories" % len(hi), "%d histories" % len(hm)))
+            continue
+        da, db = dict(acks_a), dict(acks_b)
+        if sorted(da) != sorted(db):
+            only_a = sorted(set(da) - set(db)); only_b = sorted(set(db) - set(da))
+            diffs.append((k, -2, "acks only in impl: %s" % only_a[:3], "acks only in model: %s" % only_b[:3]))
+            continue
+        early = [l for l in da if da[l] < db[l]]
+        if early:
+            diffs.append((k, -3, "ack delivered before the model determines it: %s (segment %d)" % (early[0], da[early[0]]),
+                          "model: segment %d" % db[early[0]]))
+    if len(ri) != len(rm):
+        diffs.append((-1, -1, "%d histories" % len(ri), "%d histories" % len(rm)))
     return stats, diffs, mons, hi, ""
